@@ -8,6 +8,10 @@ spec to "normalisation of the directory joined with the path" and giving idempot
 from pyvc.dsl import *
 
 classdef("liquer.parser.Position", fields={})
+classdef("liquer.parser.ActionParameter", fields=dict(position=Opaque("Any")))
+classdef("liquer.parser.StringActionParameter", bases=["ActionParameter"], fields=dict(string=Str))
+classdef("liquer.parser.LinkActionParameter", bases=["ActionParameter"], fields=dict(link=Ref("Query")))
+classdef("liquer.parser.ExpandedActionParameter", bases=["ActionParameter"], fields=dict(value=Opaque("Data"), link=Ref("Query")))
 classdef("liquer.parser.ResourceName", fields=dict(name=Str, position=Opt(Ref("Position"))))
 classdef("HeaderParam", abstract=True, fields={})        # a parameter of a segment header (string or link parameter)
 classdef("liquer.parser.SegmentHeader", fields=dict(name=Str, level=Int, resource=Bool, parameters=Seq(Ref("HeaderParam"))))
